@@ -58,10 +58,40 @@ def gen_c01():
     return rc2, out + out2
 
 
+def _run_tr(script, gen):
+    o = os.path.join(VERIF, "lean", "RSVerif", "Gen", gen)
+    p = subprocess.run([sys.executable, os.path.join(VERIF, "translate", script), "/repo", o],
+                       stdout=subprocess.PIPE, stderr=subprocess.STDOUT, text=True)
+    return p.returncode, p.stdout
+
+
+def gen_c15():
+    """C15: SrcUtils.lean (tables, integer code) + SrcMul.lean (mul16 / mul128 initialisers)"""
+    rc, out = gen_src_utils()
+    if rc != 0:
+        return rc, out
+    rc2, out2 = _run_tr("rs2lean_mul.py", "SrcMul.lean")
+    return rc2, out + out2
+
+
+def gen_c04():
+    """C04: SrcShards.lean (Index impls) + SrcBytes.lean (insert / undo_last_chunk_encoding)"""
+    rc, out = _run_tr("rs2lean_shards.py", "SrcShards.lean")
+    if rc != 0:
+        return rc, out
+    rc2, out2 = _run_tr("rs2lean_bytes.py", "SrcBytes.lean")
+    return rc2, out + out2
+
+
+TECH_TRB = ("Lean 4 machine-checked proof; the byte layout code of the working memory (Shards::insert, Shards::undo_last_chunk_encoding) is "
+            "TRANSLATED from the current Rust source on every run (translate/rs2lean_bytes.py -> Gen/SrcBytes.lean: byte views, panics as none, "
+            "the list of byte copies performed) and proved equal to the block model (bInsert / bUndoLast), which is proved equal to the lane "
+            "model; the slot homomorphism and the rest on a hand-written model + differential correspondence with the crate")
+
 TECH_TRU = ("Lean 4 machine-checked proof; the table initialisers (initialize_exp_log / initialize_log_walsh / initialize_skew), tables::mul, "
             "add_mod / sub_mod, the sequential in-place fwht and eval_poly are TRANSLATED from the current Rust source on every run "
             "(translate/rs2lean_utils.py -> Gen/SrcUtils.lean: checked u8/u16/u32/usize arithmetic, arrays with bounds checks, loops with "
-            "explicit state) and proved equal to the transliterated table constructions and the Walsh model, which are proved to give the "
+            "explicit state; translate/rs2lean_mul.py -> Gen/SrcMul.lean for initialize_mul16 / initialize_mul128) and proved equal to the transliterated table constructions and the Walsh model, which are proved to give the "
             "characterised tables; kernels, fft / ifft and the rest on a hand-written model + differential correspondence with the crate")
 
 TECH_TRC = ("Lean 4 machine-checked proof; the codec bodies (HighRate/LowRate encode and decode: chunk loops, usize arithmetic, skew "
@@ -289,6 +319,7 @@ PROPS = {
         "inverse for every even size; documented byte placement; exposed shards have exactly shard_bytes bytes. Direct oracle: size sb vs per-slot "
         "2-byte runs on the implementation for every even size in the sweep, poison hook on.",
         "cases = one per (even shard size, configuration): full-size round trip + per-slot 2-byte round trips; non-trivial = all",
+        pre_lean=gen_c04, technique=TECH_TRB,
         design_ref="DESIGN.md §6 C04",
     ),
     "C05": P(
@@ -396,7 +427,7 @@ PROPS = {
         "Tie: ALL entries of the six tables vs definitions; mul vs own arithmetic (thorough: all 2^32 pairs per engine); fft vs direct LCH evaluation; "
         "eval_poly vs direct product.",
         "cases = table entries (exhaustive) + primitive calls vs mathematical oracles",
-        pre_lean=gen_src_utils, technique=TECH_TRU,
+        pre_lean=gen_c15, technique=TECH_TRU,
         design_ref="DESIGN.md §6 C15",
     ),
     "C16": P(
